@@ -17,8 +17,10 @@ pub mod usertypes;
 pub mod c01;
 pub mod c02;
 pub mod c03;
+pub mod c04;
 pub mod c05;
 pub mod c07;
+pub mod c09;
 pub mod c10;
 pub mod c14;
 pub mod c15;
